@@ -294,6 +294,12 @@ def space(ctx):
                                            'per type (int -3, real 0.5, .true.)',
                      three_operator_trees=n3,
                      three_operator_alphabet='integer and real trees, 2 variables + 1 literal, plain binary nodes + unary minus')
+    # both tiers: flattened signed products Product((-1, x, y[, z])) and powers of perfect-square literals with
+    # positive non-integral literal exponents k/2 (4.0**0.5, 9.0**1.5, 0.25**2.5, 4**0.5: exact results)
+    mp = [t for T in 'ir' for t in G.minus_products(T, _CFG)]
+    sq = G.sqrt_powers(_CFG)
+    items += mp + sq
+    bound.update(flattened_minus_products=len(mp), half_integral_powers_of_perfect_squares=len(sq))
     bound.update(leaves='2 variables + 2 literals per type (int 2, -3; real 0.5, 2.0; logical both)',
                  forms='plain + Parenthesised*', flags=list(FLAGS))
     return items, bound
